@@ -28,17 +28,17 @@ func ringIndexRule(c *Ctx) *RuleResult {
 
 func init() {
 	properties["C01"] = propDef{run: func(c *Ctx) *PropertyRun {
-		return pr("other", "Decided: (R12b–e) the cached size of every tree moves only with the structure — replace-on-equal paths of Put touch neither counter nor links and report 'nothing added', decrements are guarded by 'found', increments travel with allocate-and-link; (R11) every child-link store has its parent-link twin; (R10) the red-black rotations and fix-up arms are mirror images; (R15) LinkedHashMap table and order list gain/lose a key on the same paths; (R16) BidiMap pairing; (R24) HashMap is the Go map; (R20) TreeMap delegates each operation to the same-named tree operation; (R13a) every comparator-driven descent (Put, Get, Remove, lookup of all three trees) branches on the comparator's full int result with one orientation — lookups and insertions take the same way down (a narrowed or re-oriented verdict in one of them loses keys); (R32) the B-tree's hand-written slice surgery keeps its indices consistent: a shift by one opens a gap that is filled at that index after growing by one, or closes one before truncating by one, and a split partitions entries into [:k] / [k+1:] with entry k moving up and children divided at k+1. Not decided: that a lookup after an arbitrary history finds the last value — the correctness of the red-black / AVL / B-tree algorithms themselves (which case fires for which shape); a recolouring mistake that keeps links, counters and mirror arms consistent is not detected."+notBehaviour,
+		return pr("other", "Decided: (R12b–e) the cached size of every tree moves only with the structure — replace-on-equal paths of Put touch neither counter nor links and report 'nothing added', decrements are guarded by 'found', increments travel with allocate-and-link; (R11) every child-link store has its parent-link twin; (R10) the red-black rotations and fix-up arms are mirror images; (R15) LinkedHashMap table and order list gain/lose a key on the same paths; (R16) BidiMap pairing; (R24) HashMap is the Go map; (R20) TreeMap delegates each operation to the same-named tree operation; (R13a) every comparator-driven descent (Put, Get, Remove, lookup of all three trees) branches on the comparator's full int result with one orientation — lookups and insertions take the same way down (a narrowed or re-oriented verdict in one of them loses keys); (R32) the B-tree's hand-written slice surgery keeps its indices consistent: a shift by one opens a gap that is filled at that index after growing by one, or closes one before truncating by one, and a split partitions entries into [:k] / [k+1:] with entry k moving up and children divided at k+1; (R34) rotations preserve the in-order sequence of the subtree they re-hang (symbolic-heap replay of every path; catches mistakes that are symmetric in both directions, which the mirror rule cannot see). Not decided: that a lookup after an arbitrary history finds the last value — the correctness of the red-black / AVL / B-tree algorithms themselves (which case fires for which shape); a recolouring mistake that keeps links, counters and mirror arms consistent is not detected."+notBehaviour,
 			c.rule("R12", ruleR12), c.rule("R11", ruleR11),
 			prefixFilter(c.rule("R10", ruleR10), "R10", "MIRROR: red-black rotations, fix-up arms, Put/lookup arms; AVL GetNode/put/remove arms", 13, "R10:trees/redblacktree.Tree.rotate", "R10:trees/redblacktree.Tree.insertCase", "R10:trees/redblacktree.Tree.deleteCase", "R10:trees/redblacktree.Tree.replaceNode", "R10:trees/redblacktree.Node.sibling", "R10:trees/redblacktree.Tree.Put", "R10:trees/redblacktree.Tree.lookup", "R10:trees/avltree.Tree.GetNode", "R10:trees/avltree.Tree.put", "R10:trees/avltree.Tree.remove"),
 			prefixFilter(c.rule("R15", ruleR15), "R15", "LINKED: LinkedHashMap table ↔ order list", 5, "R15a:maps/linkedhashmap", "R15b:maps/linkedhashmap", "R15c:maps/linkedhashmap", "R15w:maps/linkedhashmap", "R15d:maps/linkedhashmap"),
 			c.rule("R16", ruleR16), prefixFilter(c.rule("R24", ruleR24), "R24", "HASH: HashMap is the Go map", 5, "R24:maps/hashmap"), rolesFor(c, "C01"),
 			prefixFilter(c.rule("R21b", ruleR21b), "R21b", "B-tree: rebalance is keyed by the node's own key", 1, "R21b:btree.rebalance-key"),
-			prefixFilter(c.rule("R13", ruleR13), "R13", "ORDER: comparator-driven descents use one orientation and the full verdict", 10, "R13a:"), c.rule("R32", ruleR32))
+			prefixFilter(c.rule("R13", ruleR13), "R13", "ORDER: comparator-driven descents use one orientation and the full verdict", 10, "R13a:"), c.rule("R32", ruleR32), c.rule("R34", ruleR34))
 	}}
 	properties["C02"] = propDef{run: func(c *Ctx) *PropertyRun {
-		return pr("other", "Decided: (R13a) all 10 comparator-driven descents relate probe and stored key with one orientation (less → left/low, greater → right/high, equal → found); (R13b) keys are never compared with Go operators in comparator-ordered packages; (R20) Min/Max/Floor/Ceiling/Values/Keys delegate to the matching tree operation; (R10) Floor↔Ceiling, Left↔Right, Min↔Max, iterator Next↔Prev, rotations and fix-up arms are mirror images under μ. Not decided: that rotations/splits/merges preserve the in-order sequence; sortedness of Keys() as such; B-tree per-node binary-search bounds; behaviour under a comparator that is not a strict weak order."+notBehaviour,
-			c.rule("R13", ruleR13), rolesFor(c, "C02"), c.rule("R10", ruleR10), c.rule("R11", ruleR11), c.rule("R29", ruleR29),
+		return pr("other", "Decided: (R13a) all 10 comparator-driven descents relate probe and stored key with one orientation (less → left/low, greater → right/high, equal → found); (R13b) keys are never compared with Go operators in comparator-ordered packages; (R20) Min/Max/Floor/Ceiling/Values/Keys delegate to the matching tree operation; (R10) Floor↔Ceiling, Left↔Right, Min↔Max, iterator Next↔Prev, rotations and fix-up arms are mirror images under μ. (R34) the three rotation primitives (red-black rotateLeft/rotateRight with replaceNode expanded, the AVL tree's direction-parameterised rotate in both directions) are replayed over a symbolic heap on every path: the in-order sequence of the rotated subtree is the same before and after and it has exactly one new root. Not decided: that splits/merges/borrows of the B-tree and the successor/predecessor swaps of Remove preserve the in-order sequence; sortedness of Keys() as such; B-tree per-node binary-search bounds; behaviour under a comparator that is not a strict weak order."+notBehaviour,
+			c.rule("R13", ruleR13), rolesFor(c, "C02"), c.rule("R10", ruleR10), c.rule("R11", ruleR11), c.rule("R29", ruleR29), c.rule("R34", ruleR34),
 			prefixFilter(c.rule("R21b", ruleR21b), "R21b", "B-tree: rebalance is keyed by the node's own key", 1, "R21b:btree.rebalance-key"))
 	}}
 	properties["C03"] = propDef{run: func(c *Ctx) *PropertyRun {
